@@ -219,10 +219,27 @@ def scen_simple(ctx):
     return bad
 
 
+def scen_close():
+    """the stop request of close() goes behind everything already buffered (the feeder stops at it)"""
+    import collections
+    import threading
+    import billiard.queues as Q
+    bad = []
+    for n in range(0, 4):
+        buf = collections.deque('item%d' % k for k in range(n))
+        cond = threading.Condition(threading.Lock())
+        Q.Queue._finalize_close(buf, cond)
+        want = ['item%d' % k for k in range(n)] + [Q._sentinel]
+        if list(buf) != want:
+            bad.append('close() with %d objects still buffered: the buffer is %r -- the feeder stops at the sentinel, '
+                       'what is behind it is never sent' % (n, ['<sentinel>' if x is Q._sentinel else x for x in buf]))
+    return bad
+
+
 def main():
     data = json.load(open(sys.argv[1]))
     print('replay of %s / %s' % (data['function'], data['obligation']))
-    bad = scen() + scen_simple(billiard.get_context()) + scen_get_modes(billiard.get_context()) + scen_joiners(billiard.get_context())
+    bad = scen_close() + scen() + scen_simple(billiard.get_context()) + scen_get_modes(billiard.get_context()) + scen_joiners(billiard.get_context())
     for b in bad[:8]:
         print('  violation on real code: ' + b)
     print('REPRODUCED on real code' if bad else 'not reproduced')
